@@ -29,7 +29,7 @@ def commitTypeDefault : String := "FULL"
 def commitTypeMembers : List String := ["NO_COMMIT", "LINK_ONLY", "FULL"]
 
 /-- every key (or key prefix, marked `*`) of a signature pair in dds/introspect.py -/
-def sigKeys : List String := ["body_sig", "function_input_hash", "function_inter_hash", "fun_dep_*", "dep_*", "arg_context", "arg_*", "ext_dep_*", "ext_variable_*"]
+def sigKeys : List String := ["arg_*", "arg_context", "body_sig", "dep_*", "ext_dep_*", "ext_variable_*", "fun_dep_*", "function_input_hash", "function_inter_hash"]
 /-- the sentinel strings of dds_hash -/
 def hashSentinels : List String := ["__DDS_INT__", "__DDS_NONE__"]
 
